@@ -100,6 +100,7 @@ def message_case(state, maxpay):
                 ch._set_transport(t)
                 ch._set_window(2 ** 21, 2 ** 15)
                 ch._set_remote_channel(0, 2 ** 21, 2 ** 15)
+                probe["ch"] = ch                 # ChannelMap only holds weak references
             return (ptype, payload, seq)
         script = L.Script(pre + [marker])
         t = L.make_transport(server, script, L.make_server_interface(log) if server else None, symbolic_ids=ctx.symbolic)
